@@ -3,7 +3,164 @@ import json
 
 from mammoth import html
 
-from .. import gen_html, oracle_html as O, terms as T
+from .. import apilevel as A, docx_builder as B, gen_html, gen_xml, livetext, oracle_html as O, terms as T
+
+STRUCTURE = {"table", "thead", "tbody", "tr", "td", "th"}
+HEADINGS = {"Heading1": "h1", "Heading2": "h2"}
+
+
+def para_content(nodes):
+    """does the paragraph contain anything that is kept: non-empty text, tab, hyphen, line break, symbol, image, checkbox, bookmark"""
+    from mammoth.docx.xmlparser import XmlElement
+    for n in nodes:
+        if not isinstance(n, XmlElement):
+            continue
+        nm = n.name
+        if nm == "w:t":
+            if "".join(c.value for c in n.children if not isinstance(c, XmlElement)) != "":
+                return True
+        elif nm in ("w:tab", "w:noBreakHyphen", "w:softHyphen"):
+            return True
+        elif nm == "w:br":
+            if n.attributes.get("w:type") in (None, "", "textWrapping"):
+                return True
+        elif nm == "w:sym":
+            from mammoth.docx.dingbats import dingbats
+            font, ch = n.attributes.get("w:font"), n.attributes.get("w:char")
+            cp = dingbats.get((font, int(ch, 16)))
+            if cp is None and len(ch) >= 4 and ch.startswith("F0"):
+                cp = dingbats.get((font, int(ch[2:], 16)))
+            if cp is not None:
+                return True
+        elif nm == "w:bookmarkStart":
+            if n.attributes.get("w:name") != "_GoBack":
+                return True
+        elif nm in ("w:del", "w:rPr", "w:pPr", "w:instrText"):
+            continue
+        elif nm == "w:sdt":
+            if n.find_child_or_null("w:sdtPr").find_child("wordml:checkbox") is not None:
+                return True
+            if para_content(n.find_child_or_null("w:sdtContent").children):
+                return True
+        elif nm == "w:pict":
+            continue        # VML content is placed after the paragraph, not inside it
+        elif nm == "w:drawing":
+            js = repr(gen_xml.xml_json(n))
+            if "r:embed" in js or "r:link" in js:
+                return True
+        elif nm == "mc:AlternateContent":
+            if para_content(n.find_child_or_null("mc:Fallback").children):
+                return True
+        elif nm in livetext.CONTAINERS or nm == "w:r":
+            if para_content(n.children):
+                return True
+        # anything else is ignored or unknown to the converter: it contributes nothing
+    return False
+
+
+def expected_blocks(pkg, keep_empty):
+    """(tag, text) of every paragraph block the property says must be in the output, in reading order (no lists, no notes)"""
+    from mammoth.docx.xmlparser import XmlElement
+    out = []
+
+    def blocks(nodes):
+        for n in nodes:
+            if not isinstance(n, XmlElement):
+                continue
+            if n.name == "w:p":
+                sid = n.find_child_or_null("w:pPr").find_child_or_null("w:pStyle").attributes.get("w:val")
+                lt = livetext.LiveText(pkg)
+                text = lt.render(lt.blocks([n]), {"refs": [], "crefs": []})
+                if keep_empty or para_content(n.children):
+                    out.append((HEADINGS.get(sid, "p"), B.sanitize(text)))
+            elif n.name == "w:tbl":
+                for tr in n.children:
+                    if isinstance(tr, XmlElement) and tr.name == "w:tr":
+                        for tc in tr.children:
+                            if isinstance(tc, XmlElement) and tc.name == "w:tc":
+                                vm = tc.find_child_or_null("w:tcPr").find_child("w:vMerge")
+                                if vm is not None and vm.attributes.get("w:val") in (None, "", "continue"):
+                                    continue
+                                blocks(tc.children)
+            elif n.name == "w:sdt":
+                blocks(n.find_child_or_null("w:sdtContent").children)
+    blocks(pkg.body)
+    return out
+
+
+def html_blocks(forest, out):
+    for n in forest:
+        if "name" in n:
+            if n["name"] in ("p", "h1", "h2", "h3", "h4", "h5", "h6"):
+                out.append((n["name"], O.text_of_parsed(n["children"])))
+            else:
+                html_blocks(n["children"], out)
+    return out
+
+
+def empty_elements(forest, out):
+    for n in forest:
+        if "name" in n:
+            if not n["children"] and not n["self_closed"]:
+                out.append(n)
+            empty_elements(n["children"], out)
+    return out
+
+
+def api_stream(ctx):
+    """conversion level: documents in which paragraphs, runs, links and cells are empty in every way, both flag values"""
+    rng = ctx.rng
+    n = 1200 if ctx.thorough else 140
+    terms, metas = [], []
+    dist = {"documents": 0, "keep_empty": 0, "empty_paragraphs": 0}
+    for i in range(n):
+        g = gen_xml.XGen(rng, hostile=0.1, numbering=False, notes=False, comments=False, textboxes=False, deleted=False, fields=False,
+                         anomalies=0.1, images=(i % 3 == 0))
+        # make emptiness common: empty runs, runs with empty text, empty links, empty paragraphs
+        g.text = (lambda orig: (lambda: "" if rng.random() < 0.45 else orig()))(g.text)
+        pkg = g.package(rng.randint(1, 6))
+        for t in list(pkg.linked):
+            pkg.linked[t] = ("error", None)
+        keep = rng.random() < 0.5
+        opts = {"style_map": None, "include_default_style_map": True, "include_embedded_style_map": True,
+                "ignore_empty_paragraphs": not keep, "id_prefix": None, "conv": "no_open"}
+        data, parts = B.build(pkg)
+        html, raw = A.run_impl(data, opts, None)
+        ctx.count()
+        dist["documents"] += 1
+        dist["keep_empty"] += keep
+        meta = {"package": gen_xml.pkg_json(pkg), "options": opts, "index": i}
+        bad = None
+        if isinstance(html, Exception):
+            bad = "conversion raised %r" % html
+        else:
+            forest = O.strict_parse(html.value)
+            exp = expected_blocks(pkg, keep)
+            got = html_blocks(forest, [])
+            dist["empty_paragraphs"] += sum(1 for _, tx in exp if tx == "")
+            if got != exp:
+                bad = ("with ignore_empty_paragraphs=False every paragraph must yield its block" if keep else
+                       "a paragraph with content was removed, or an empty one kept") + ": expected %s, got %s" % (exp[:6], got[:6])
+            else:
+                for e in empty_elements(forest, []):
+                    ok = e["name"] in STRUCTURE or (e["name"] == "a" and "id" in e["attrs"]) or (keep and e["name"] in ("p", "h1", "h2"))
+                    if not ok:
+                        bad = "the output contains an empty <%s> element" % e["name"]
+                        break
+        if bad:
+            ctx.violation("oracle", bad, dict(meta, api="mammoth.convert_to_html(ignore_empty_paragraphs=%s)" % (not keep),
+                                             observed=None if isinstance(html, Exception) else html.value[:700]), True)
+            if len(ctx.violations) > 10:
+                break
+        else:
+            ctx.nontrivial("doc%d" % i)
+        terms.append(A.case_term(parts, False, {}, opts, html, raw))
+        metas.append(meta)
+    for i in ctx.coq_eval("c14api", A.HEADER, terms, A.CASE_TYPE, "chk_api", shard=12)[:5]:
+        ctx.violation("correspondence", "model and implementation disagree",
+                      dict(metas[i], obligation="correspondence Model/Api.v vs mammoth.convert_to_html"), False)
+    ctx.coverage["api_level"] = dist
+    return len(terms)
 
 HEADER = """From Mammoth Require Import Html.
 Local Open Scope N_scope.
@@ -57,7 +214,8 @@ def run(ctx):
         ctx.violation("correspondence", "model and mammoth.html.strip_empty disagree",
                       {"obligation": "correspondence Model/Html.v:strip_empty vs mammoth.html.strip_empty",
                        "input": metas[i]}, False)
-    ctx.coverage["traces_validated_against_impl"] = limit
+    n_api = api_stream(ctx)
+    ctx.coverage["traces_validated_against_impl"] = limit + n_api
     ctx.coverage["exhaustive"] = True
     ctx.coverage["rule"] = ("all forests with <= %d nodes over 4 tags (p, p[a], br, img) x leaves {'', 'x', force_write}, then random forests; "
                             "non-trivial = distinct input from which something was dropped and something kept" % (4 if ctx.thorough else 3))
@@ -65,6 +223,15 @@ def run(ctx):
 
 
 def replay(ctx, rep):
+    if "package" in rep["replay"]:
+        r = rep["replay"]
+        pkg = gen_xml.pkg_from_json(r["package"])
+        data, _ = B.build(pkg)
+        html, _ = A.run_impl(data, r["options"], None)
+        keep = not r["options"]["ignore_empty_paragraphs"]
+        bad = isinstance(html, Exception) or html_blocks(O.strict_parse(html.value), []) != expected_blocks(pkg, keep)
+        print("replay:", "violated" if bad else "property holds on this input")
+        return 1 if bad else 0
     inp = rep["replay"]["input"]
     forest = [T.node_from_json(j) for j in inp]
     out = [T.node_json(x) for x in html.strip_empty(forest)]
